@@ -14,11 +14,18 @@ Part B  split ∘ merge: the parts of every split mode concatenate to the whole 
         merging them gives back the original page sequence.
 Part C  rotation arithmetic: result in {0,90,180,270}, equal to old + angle modulo 360,
         composition; only /Rotate changes under `rotate`.
-Part D  what `copyPage` preserves: rotation, content, every resource category — and what it
-        does not: the MediaBox origin and the CropBox (FULL statement false, `_partial` +
-        witnesses, findings C16-F1 / C16-F2); i32 overflow of `rotation + angle` (C16-F3).
+Part D  what `copyPage` preserves: rotation, content, every resource category, the MediaBox
+        with its origin and the CropBox (full statement since the repairs of C16-F1 / C16-F2;
+        regression witnesses about the pre-repair `copyPageOld`); i32 overflow of
+        `rotation + angle` (C16-F3).
 -/
 namespace OxiVerif.C16
+
+/-- `[ox, oy, ox + width, oy + height]` with `width = x1 - ox`, `height = y1 - oy` -/
+theorem box_fix (a b c d : Int) : [a, b, a + (c - a), b + (d - b)] = [a, b, c, d] := by
+  have h1 : a + (c - a) = c := by omega
+  have h2 : b + (d - b) = d := by omega
+  rw [h1, h2]
 
 /-- the copy of page `i` (any placeholder outside the document; never used for valid indices) -/
 def copyAt (ps : List Src) (i : Nat) : Out := copyPage (ps.getD i default)
@@ -248,6 +255,92 @@ theorem C16_merge (inputs : List (List Src × PageRange)) (sels : List (List Nat
       simp only [mapM', hm, ih, List.zipWith_cons_cons]
   simp [key]
 
+/-! ### validation: exactly which requests are refused, and how -/
+
+/-- `PageRange::get_indices` fails only with `PageIndexOutOfBounds`, and exactly when the range
+names an index outside the document (a reversed `Range(a, b)` inside the document is accepted and
+denotes the empty selection). -/
+theorem C16_getIndices_error (r : PageRange) (n : Nat) :
+    (∃ idx, getIndices r n = .ok idx) ∨
+    (getIndices r n = .err .oob ∧ match r with
+      | .all => False
+      | .single i => n ≤ i
+      | .range a b => n ≤ a ∨ n ≤ b
+      | .list l => ∃ i ∈ l, n ≤ i) := by
+  cases r with
+  | all => left; exact ⟨_, rfl⟩
+  | single i =>
+    by_cases h : n ≤ i
+    · right; simp [getIndices, h]
+    · left; simp [getIndices, h]
+  | range a b =>
+    by_cases h1 : n ≤ a
+    · right; simp [getIndices, h1]
+    · by_cases h2 : n ≤ b
+      · right; simp [getIndices, h1, h2]
+      · left; simp [getIndices, h1, h2]
+  | list l =>
+    cases hf : firstGe l n with
+    | none => left; simp [getIndices, hf]
+    | some x =>
+      right
+      refine ⟨by simp [getIndices, hf], x, ?_⟩
+      have := List.find?_some hf
+      exact ⟨List.mem_of_find?_eq_some hf, by simpa using this⟩
+
+example : getIndices (.list [0, 7]) 3 = .err .oob ∧ getIndices (.range 2 9) 3 = .err .oob := by decide
+
+/-- `reorder` refuses an empty document (`NoPagesToProcess`), an empty order and an order with an
+index outside the document (`InvalidPageRange`) — and nothing else. -/
+theorem C16_reorder_validation (ps : List Src) (order : List Nat) :
+    (ps = [] → reorder ps order = .err .nopages) ∧
+    (ps ≠ [] → order = [] → reorder ps order = .err .range) ∧
+    (ps ≠ [] → (∃ i ∈ order, ps.length ≤ i) → reorder ps order = .err .range) ∧
+    (ps ≠ [] → order ≠ [] → (∀ i ∈ order, i < ps.length) →
+      reorder ps order = .ok (order.map (copyAt ps))) := by
+  refine ⟨?_, ?_, ?_, ?_⟩
+  · intro h; subst h; simp [reorder]
+  · intro h1 h2; subst h2
+    have : ps.length ≠ 0 := by simpa using h1
+    simp [reorder, this]
+  · intro h1 ⟨i, hi, hle⟩
+    have hl : ps.length ≠ 0 := by simpa using h1
+    have hne : order.isEmpty = false := by cases order <;> simp_all
+    cases hf : firstGe order ps.length with
+    | some x => simp [reorder, hl, hne, hf]
+    | none =>
+      have := (firstGe_none order ps.length).mp hf i hi
+      omega
+  · intro _ h2 h3; exact C16_reorder ps order h3 h2
+
+example : reorder [default, default] [0, 2] = .err .range ∧ reorder [default] [] = .err .range ∧
+    reorder [] [0] = .err .nopages := by decide
+
+/-- `swap_pages` / `move_page` refuse exactly the requests with an index outside the document
+(`InvalidPageRange`). -/
+theorem C16_swap_move_validation (ps : List Src) (a b : Nat) :
+    ((ps.length ≤ a ∨ ps.length ≤ b) → swap ps a b = .err .range ∧ move ps a b = .err .range) ∧
+    ((a < ps.length ∧ b < ps.length) → (∃ o, swap ps a b = .ok o) ∧ (∃ o, move ps a b = .ok o)) := by
+  constructor
+  · intro h; simp [swap, move, h]
+  · intro ⟨ha, hb⟩
+    exact ⟨⟨_, (C16_swap ps a b ha hb).1⟩, ⟨_, (C16_move ps a b ha hb).1⟩⟩
+
+/-- the extract family: out-of-range → `PageIndexOutOfBounds`, empty list → `NoPagesToProcess` -/
+theorem C16_extract_validation (ps : List Src) (l : List Nat) (i : Nat) :
+    (ps.length ≤ i → extractPage ps i = .err .oob) ∧
+    ((∃ j ∈ l, ps.length ≤ j) → extractPages ps l = .err .oob) ∧
+    (extractPages ps [] = .err .nopages) := by
+  refine ⟨?_, ?_, ?_⟩
+  · intro h; simp [extractPage, h]
+  · intro ⟨j, hj, hle⟩
+    cases hf : firstGe l ps.length with
+    | some x => simp [extractPages, hf]
+    | none =>
+      have := (firstGe_none l ps.length).mp hf j hj
+      omega
+  · simp [extractPages, firstGe]
+
 /-! ## Part B — split, and merge ∘ split -/
 
 theorem extractRange_ok (ps : List Src) (a b : Nat) (d : List Out)
@@ -268,6 +361,53 @@ theorem extractRange_ok (ps : List Src) (a b : Nat) (d : List Out)
         apply h3
         simp [rangeIncl]
         omega
+
+/-- SplitMode::Ranges: one output document per requested range, in order, each exactly that
+range's selection; a range outside the document or an empty selection makes the split fail. -/
+theorem C16_split_ranges (ps : List Src) (rs : List PageRange) (docs : List (List Out))
+    (h : split ps (.ranges rs) = .ok docs) :
+    List.Forall₂ (fun r d => ∃ idx, getIndices r ps.length = .ok idx ∧ idx ≠ [] ∧
+      d = idx.map (copyAt ps)) rs docs := by
+  unfold split at h
+  split at h
+  · cases h
+  · simp only [splitRanges] at h
+    clear * - h
+    induction rs generalizing docs with
+    | nil => simp [mapM'] at h; subst h; exact List.Forall₂.nil
+    | cons r rest ih =>
+      simp only [mapM'] at h
+      split at h
+      · rename_i d hd
+        split at h
+        · rename_i ds hds
+          cases h
+          refine List.Forall₂.cons ?_ (ih ds hds)
+          simp only [extractRange] at hd
+          split at hd
+          · rename_i idx hidx
+            by_cases he : idx.isEmpty = true
+            · simp [he] at hd
+            · simp only [he] at hd
+              cases hd
+              refine ⟨idx, hidx, by intro e; subst e; simp at he, ?_⟩
+              simp [pick_eq_map ps idx (C16_getIndices_sound r _ idx hidx).1, copyAt]
+          · cases hd
+          · cases hd
+        · cases h
+        · cases h
+      · cases h
+      · cases h
+
+example : split [default, default, default] (.ranges [.single 2, .range 0 1]) =
+    .ok [[copyPage default], [copyPage default, copyPage default]] := by decide
+example : split [default, default, default] (.ranges [.range 2 1]) = .err .nopages := by decide
+
+/-- `ChunkSize(0)`: `start + size - 1` underflows — a panic in a debug build, for every
+non-empty document -/
+theorem C16_split_chunk_zero (ps : List Src) (h : ps ≠ []) : split ps (.chunk 0) = .panic := by
+  have : ps.length ≠ 0 := by simpa using h
+  simp [split, this, splitRanges]
 
 /-- SplitMode::SinglePages: one document per page, in order -/
 theorem C16_split_single (ps : List Src) (hne : ps ≠ []) :
@@ -475,7 +615,8 @@ theorem C16_recopy (p : Src) :
     o2.mediaBox = o.mediaBox ∧ o2.cropBox = o.cropBox ∧ o2.rotation = o.rotation ∧
     o2.content = o.content ++ "0a" ∧ (∀ k, k ∈ o2.res ↔ k ∈ o.res) := by
   refine ⟨?_, rfl, rfl, ?_, ?_⟩
-  · simp [copyPage, reread, boxAt]
+  · simp only [copyPage, reread, boxAt, List.getD_cons_zero, List.getD_cons_succ]
+    exact box_fix _ _ _ _
   · simp [copyPage, reread, joinStreams]
   · intro k
     simp [copyPage, reread, mem_sortKeys]
@@ -547,6 +688,37 @@ theorem C16_rotated_compose (r a b : Int) (hr : r % 90 = 0)
   rw [hm]
   rcases hy4 with h | h | h | h <;> simp [h]
 
+/-- ROTATING BACK: whenever source rotation plus angle is a full turn the composed /Rotate is 0
+(the entry disappears from the written page) — in particular for a page that already carries a
+non-zero /Rotate (own or inherited) turned by the complementary angle. -/
+theorem C16_rotated_back_to_zero (r a : Int) (h : (r + a) % 360 = 0)
+    (hlo : I32_MIN ≤ r + a) (hhi : r + a ≤ I32_MAX) : rotated r a = .ok 0 := by
+  unfold rotated snap
+  simp only [I32_MAX, I32_MIN] at *
+  have h1 : ¬ (r + a > 2147483647 ∨ r + a < -2147483648) := by omega
+  simp [h1, h]
+
+/-- … and whenever it is not a full turn the composed /Rotate is NOT the source's residue unless
+the angle is 0: the new angle always takes effect. -/
+theorem C16_rotated_changes (r a : Int) (hr : r % 90 = 0) (ha : a = 90 ∨ a = 180 ∨ a = 270)
+    (hlo : I32_MIN ≤ r) (hhi : r + a ≤ I32_MAX) :
+    ∃ x, rotated r a = .ok x ∧ (x - r) % 360 ≠ 0 := by
+  obtain ⟨x, hx, _, hm⟩ := C16_rotated_mod360 r a hr (by omega) hlo hhi
+  exact ⟨x, hx, by omega⟩
+
+example : rotated 90 270 = .ok 0 ∧ rotated 180 180 = .ok 0 ∧ rotated 270 90 = .ok 0 ∧
+    rotated (-90) 90 = .ok 0 ∧ rotated 450 270 = .ok 0 := by decide
+
+/-- two steps (the second on the re-read output of the first): 90 then 270 is the identity on
+/Rotate, for every source rotation that is a multiple of 90 -/
+theorem C16_rotate_90_then_270 (r : Int) (hr : r % 90 = 0) (hlo : I32_MIN ≤ r) (hhi : r + 90 ≤ I32_MAX) :
+    ∃ x y, rotated r 90 = .ok x ∧ rotated x 270 = .ok y ∧ (y - r) % 360 = 0 ∧
+      (y = 0 ∨ y = 90 ∨ y = 180 ∨ y = 270) := by
+  obtain ⟨x, hx, hx4, hxm⟩ := C16_rotated_mod360 r 90 hr (by omega) hlo hhi
+  obtain ⟨y, hy, hy4, hym⟩ := C16_rotated_mod360 x 270 (by omega) (by omega)
+    (by simp only [I32_MIN]; omega) (by simp only [I32_MAX]; omega)
+  exact ⟨x, y, hx, hy, by omega, hy4⟩
+
 example : rotated (-450) 90 = .ok 0 ∧ rotated 810 270 = .ok 0 ∧ rotated 270 180 = .ok 90 := by decide
 
 /-- WITNESS (C16-F3, debug build): `parsed_page.rotation + angle.to_degrees()` is an `i32`
@@ -613,38 +785,54 @@ theorem C16_copy_resources (p : Src) (k : String) :
     k ∈ (copyPage p).res ↔ k = "Font" ∨ k ∈ p.res.getD [] := by
   simp [copyPage, mem_sortKeys]
 
-/- FULL (false of the current code — witnesses below, findings C16-F1 and C16-F2):
-   theorem C16_copy_geometry (p : Src) (h : p.mediaBox.length = 4) :
-       (copyPage p).mediaBox = p.mediaBox ∧ (copyPage p).cropBox = p.cropBox
-   "each [page] with the same … page boxes (including a non-zero origin)". -/
+/-- GEOMETRY (full statement since the repairs of C16-F1 / C16-F2): "each [page] with the same …
+page boxes (including a non-zero origin)" — the MediaBox with its origin and the CropBox (own or
+inherited in the source) are those of the source page.  (`ParsedPage::media_box` is a `[f64; 4]`,
+hence the length hypothesis; it holds for every page `create_parsed_page` returns.) -/
+theorem C16_copy_geometry (p : Src) (h : p.mediaBox.length = 4) :
+    (copyPage p).mediaBox = p.mediaBox ∧ (copyPage p).cropBox = p.cropBox := by
+  refine ⟨?_, rfl⟩
+  obtain ⟨x0, y0, x1, y1, hp⟩ : ∃ x0 y0 x1 y1, p.mediaBox = [x0, y0, x1, y1] := by
+    match hq : p.mediaBox, h with
+    | [x0, y0, x1, y1], _ => exact ⟨x0, y0, x1, y1, rfl⟩
+  simp only [copyPage, hp, boxAt, List.getD_cons_zero, List.getD_cons_succ]
+  exact box_fix _ _ _ _
 
-/-- PARTIAL: geometry is preserved exactly when the MediaBox starts at the origin and the page
-has no CropBox (which is all the library's own writer ever produces). -/
+example : (copyPage { (default : Src) with mediaBox := [200, 400, 800, 1200], cropBox := some [210, 410, 700, 1100] }).mediaBox
+    = [200, 400, 800, 1200] := by decide
+
+/-- what held before the repairs (`copyPageOld`): geometry preserved exactly when the MediaBox
+starts at the origin and the page has no CropBox -/
 theorem C16_copy_geometry_partial (p : Src) (w h : Int) (hm : p.mediaBox = [0, 0, w, h])
     (hc : p.cropBox = none) :
-    (copyPage p).mediaBox = p.mediaBox ∧ (copyPage p).cropBox = p.cropBox := by
-  simp [copyPage, hm, hc, boxAt]
+    (copyPageOld p).mediaBox = p.mediaBox ∧ (copyPageOld p).cropBox = p.cropBox := by
+  simp [copyPageOld, hm, hc, boxAt]
 
-example : (copyPage { (default : Src) with mediaBox := [0, 0, 1224, 1584] }).mediaBox = [0, 0, 1224, 1584] := by
+example : (copyPageOld { (default : Src) with mediaBox := [0, 0, 1224, 1584] }).mediaBox = [0, 0, 1224, 1584] := by
   decide
 
-/-- the size (width, height) always survives -/
+/-- the size (width, height) always survived, also before the repair -/
 theorem C16_copy_size (p : Src) (x0 y0 x1 y1 : Int) (hm : p.mediaBox = [x0, y0, x1, y1]) :
-    (copyPage p).mediaBox = [0, 0, x1 - x0, y1 - y0] := by
-  simp [copyPage, hm, boxAt]
+    (copyPageOld p).mediaBox = [0, 0, x1 - x0, y1 - y0] := by
+  simp [copyPageOld, hm, boxAt]
 
-/-- WITNESS (C16-F1): MediaBox [100 200 400 600] (×2 = [200,400,800,1200]) becomes [0 0 300 400]
-while the content is unchanged. -/
+/-- the repaired copy differs from the old one in the boxes only -/
+theorem C16_copy_old_same_rest (p : Src) :
+    (copyPage p).rotation = (copyPageOld p).rotation ∧ (copyPage p).res = (copyPageOld p).res ∧
+    (copyPage p).content = (copyPageOld p).content := ⟨rfl, rfl, rfl⟩
+
+/-- REGRESSION WITNESS (C16-F1, fixed): before the repair MediaBox [100 200 400 600]
+(×2 = [200,400,800,1200]) became [0 0 300 400] while the content was unchanged. -/
 theorem C16_witness_mediabox_origin :
     let p : Src := { mediaBox := [200, 400, 800, 1200], cropBox := none, rotation := 90, res := none, streams := ["71"] }
-    (copyPage p).mediaBox = [0, 0, 600, 800] ∧ (copyPage p).mediaBox ≠ p.mediaBox ∧
-    (copyPage p).content = "710a" := by
+    (copyPageOld p).mediaBox = [0, 0, 600, 800] ∧ (copyPageOld p).mediaBox ≠ p.mediaBox ∧
+    (copyPageOld p).content = "710a" ∧ (copyPage p).mediaBox = p.mediaBox := by
   decide
 
-/-- WITNESS (C16-F2): a CropBox is never carried over. -/
+/-- REGRESSION WITNESS (C16-F2, fixed): before the repair a CropBox was never carried over. -/
 theorem C16_witness_cropbox_dropped :
     let p : Src := { mediaBox := [0, 0, 1224, 1584], cropBox := some [20, 20, 600, 800], rotation := 0, res := none, streams := [] }
-    (copyPage p).cropBox = none ∧ (copyPage p).cropBox ≠ p.cropBox := by
+    (copyPageOld p).cropBox = none ∧ (copyPageOld p).cropBox ≠ p.cropBox ∧ (copyPage p).cropBox = p.cropBox := by
   decide
 
 end OxiVerif.C16
